@@ -43,26 +43,27 @@ def _case(draw):
             'inv_dtype': draw(st.sampled_from(['float32', 'float32', 'float64'])),
             'loss_scale': draw(st.sampled_from([None, None, 64.0, 1024.0])), 'in_hook': draw(st.booleans()),
             'kl_clip': draw(st.sampled_from([1e-3, 1e30])),
-            'N': draw(st.integers(2, 4)), 'style': draw(gens.style_strategy()), 'program': ops}
+            'N': draw(st.integers(2, 4)), 'style': draw(gens.style_strategy()),
+            'mem_format': draw(st.sampled_from(['contiguous', 'contiguous', 'channels_last'])), 'program': ops}
 
 
 class C10(Prop):
     id = 'C10'
     title = 'A step touches nothing but the gradients of registered layers'
     rule = ('Hypothesis draws a runnable model of 1-4 supported layers interleaved with unsupported trainable modules (LayerNorm, BatchNorm2d, '
-            'an affine module), residual blocks x + fn(x) around registered Linear/Conv2d layers, wholly or partly frozen layers, 0-2 skip '
+            'an affine module), contiguous or dense non-contiguous batches (channels_last for 4-d inputs, transposed storage otherwise), residual blocks x + fn(x) around registered Linear/Conv2d layers, wholly or partly frozen layers, 0-2 skip '
             'patterns (names and class names), parameter dtype float32/float64/bfloat16, factor and inverse dtypes, both methods, optional loss '
             'scale with grad_scaler, and a sequence of eval passes and 1-3 train steps. Oracle: around every step() all parameters and buffers '
             'bit-identical, gradients of parameters outside the registered layers bit-identical (None stays None), registered gradients keep '
             'shape, dtype, device, contiguity and are finite; around eval-mode forward/backward passes state_dict(), memory_usage() and steps '
-            'unchanged; outputs and autograd gradients bit-identical to a twin model without K-FAC in every pass. Non-trivial: >= 1 registered '
+            'unchanged; outputs and autograd gradients bit-identical to a twin model without K-FAC (fed its own copy of the batch) in every pass, the batch itself left unmodified and no pass failing only with K-FAC registered. Non-trivial: >= 1 registered '
             'and >= 1 unregistered trainable module and one of {skip pattern hit, frozen module, non-float32 parameters, eval pass, residual block}.')
     assumptions = ['the set of registered layers is computed by the harness with the eligibility rule of C16 (leaf Linear/Conv2d, all parameters trainable, no pattern hit)',
                    'bit-identity with the twin relies on deterministic CPU kernels (torch.use_deterministic_algorithms is not required for these ops)']
     examples = {'quick': 400, 'thorough': 1200}
     shards = {'quick': 4, 'thorough': 16}
-    required_labels = {'quick': ['nontrivial=True', 'param_dtype=bfloat16', 'param_dtype=float64', 'residual=True', 'frozen=True', 'skipped=True'],
-                       'thorough': ['nontrivial=True', 'param_dtype=bfloat16', 'param_dtype=float64', 'residual=True', 'frozen=True', 'skipped=True']}
+    required_labels = {'quick': ['nontrivial=True', 'param_dtype=bfloat16', 'param_dtype=float64', 'residual=True', 'frozen=True', 'skipped=True', 'mem_format=channels_last', 'factor_dtype_is_param_dtype=True'],
+                       'thorough': ['nontrivial=True', 'param_dtype=bfloat16', 'param_dtype=float64', 'residual=True', 'frozen=True', 'skipped=True', 'mem_format=channels_last', 'factor_dtype_is_param_dtype=True']}
 
     def strategy(self, tier):
         return _case()
@@ -89,6 +90,13 @@ class C10(Prop):
                 registered[name] = m
             else:
                 supported_unreg += 1
+        # torch's own hook plumbing is not K-FAC's doing: register_full_backward_hook routes a module's output through an identity
+        # autograd function that may re-stride size-1 dimensions, after which a following convolution can pick another kernel
+        # (1 ulp differences).  The twin therefore carries inert hooks of the same two kinds on the same modules.
+        tmods = dict(twin.named_modules())
+        for name in registered:
+            tmods[name].register_forward_pre_hook(lambda m, i: None)
+            tmods[name].register_full_backward_hook(lambda m, gi, go: None)
         reg_params = {f'{n}.{pn}' if n else pn for n, m in registered.items() for pn, _ in m.named_parameters()}
         kw = dict(compute_method=case['method'], compute_eigenvalue_outer_product=case['prediv'], skip_layers=list(pats),
                   factor_dtype=kmodel.dt(case['factor_dtype']), inv_dtype=kmodel.dt(case['inv_dtype']),
@@ -104,7 +112,9 @@ class C10(Prop):
         has_res = any(L['t'].startswith('res_') for L in case['spec']['layers'])
         labels = {'param_dtype': case['param_dtype'], 'method': case['method'], 'residual': has_res,
                   'frozen': any('frozen' in L for L in case['spec']['layers']), 'skipped': supported_unreg > 0 and bool(pats),
-                  'loss_scale': case['loss_scale'] is not None, 'n_registered': min(len(registered), 5)}
+                  'loss_scale': case['loss_scale'] is not None, 'n_registered': min(len(registered), 5),
+                  'mem_format': case.get('mem_format', 'contiguous'),
+                  'factor_dtype_is_param_dtype': case['factor_dtype'] == case['param_dtype']}
         scale = case['loss_scale'] or 1.0
         unreg_trainable = any(p.requires_grad for n, p in model.named_parameters() if n not in reg_params)
         saw_eval = False
@@ -119,10 +129,23 @@ class C10(Prop):
                 sd0 = pre.state_dict()
                 mem0 = dict(pre.memory_usage())
                 st0 = pre.steps
-            y = model(x)
-            (kmodel.loss_of(y, op['seed'] + 1, case['N']) * scale).backward()
-            y2 = twin(x)
+            if case.get('mem_format') == 'channels_last':
+                # a dense, non-contiguous batch: channels_last for 4-d inputs, the last two dimensions stored transposed otherwise
+                x = x.contiguous(memory_format=torch.channels_last) if x.dim() == 4 else x.transpose(-1, -2).contiguous().transpose(-1, -2)
+            # the twin gets its own copy of the batch: a hook that writes into its input must not reach the twin through aliasing
+            x2, x_orig = x.clone(memory_format=torch.preserve_format), x.clone(memory_format=torch.preserve_format)
+            y2 = twin(x2)
             (kmodel.loss_of(y2, op['seed'] + 1, case['N']) * scale).backward()
+            try:
+                y = model(x)
+                (kmodel.loss_of(y, op['seed'] + 1, case['N']) * scale).backward()
+            except RuntimeError as e:
+                # the same pass succeeded on the twin without K-FAC
+                return violation(f'op {i} {op}: forward/backward raised with K-FAC registered but not on the twin without it: '
+                                 f'{type(e).__name__}: {str(e)[:200]}', 'autograd-changed', labels=labels)
+            if not torch.equal(x, x_orig):
+                return violation(f'op {i} {op}: the input batch was modified in place by a pass with K-FAC registered (factor_dtype='
+                                 f'{case["factor_dtype"]}, param_dtype={case["param_dtype"]}, mem_format={case.get("mem_format")})', 'input-modified', labels=labels)
             if not torch.equal(y.detach(), y2.detach()) and not (torch.isnan(y).any() and torch.isnan(y2).any()):
                 return violation(f'op {i} {op}: model output differs from the twin without K-FAC', 'output-changed', labels=labels)
             for (n1, p1), (n2, p2) in zip(model.named_parameters(), twin.named_parameters()):
